@@ -148,7 +148,14 @@ def excel_rows(source_path, sheet=1):
             for y in range(sheet_to_read.nrows):
                 row = []
                 for x in range(sheet_to_read.ncols):
-                    row.append(_excel_cell_value(sheet_to_read.cell(y, x), datemode))
+                    try:
+                        row.append(_excel_cell_value(sheet_to_read.cell(y, x), datemode))
+                    except xlrd.XLDateError as error:
+                        # A cell formatted as date or time holds a number Excel cannot show as date, for example
+                        # a negative one or (with the 1900 based date mode) one before 1900-03-01.
+                        raise errors.DataFormatError(
+                            "cannot convert Excel cell to date or time: %s: %s" % (error.__class__.__name__, error), location
+                        )
                     location.advance_cell()
                 yield row
                 location.advance_line()
